@@ -57,7 +57,7 @@ func TestC20Cadence(t *testing.T) {
 	if err != nil {
 		t.Fatal(err)
 	}
-	rapid.Check(t, func(rt *rapid.T) {
+	check(t, func(rt *rapid.T) {
 		interval := 5100*time.Millisecond + time.Duration(rapid.IntRange(0, 900).Draw(rt, "extraMillis"))*time.Millisecond
 		dir := tempDir("c20-cadence-")
 		defer removeAll(dir)
